@@ -439,7 +439,7 @@ theorem classify_kind {raw : Bytes} {it : Item} (h : classify raw = .ok it) :
   · next h0 => cases h; simp [h0]
   · next h0 =>
     split at h
-    · next h1 => cases h; simp [h0, h1]
+    · next h1 => cases h; simp [h1]
     · next h1 =>
       split at h
       · next h2 => cases h; simp [h0, h1, h2.1, h2.2]
@@ -627,7 +627,7 @@ theorem AllOk.instr_at {ls : List Bytes} {items : List Item} (h : AllOk ls items
       cases j with
       | zero =>
         simp at hj; subst hj
-        exact ⟨i, hc, by simp [List.filterMap_cons, instrOf]⟩
+        exact ⟨i, hc, by simp [instrOf]⟩
       | succ j =>
         simp at hj
         obtain ⟨i', h1, h2⟩ := ih j raw hj
@@ -1784,7 +1784,7 @@ theorem parseInt32_showImm (v : Word) : parseInt32 (showImm v) = .ok v := by
   unfold showImm
   have hlo := BitVec.le_toInt v
   have hhi := BitVec.toInt_lt (x := v)
-  simp only [Nat.add_one_sub_one, Nat.reducePow] at hlo hhi
+  simp only [Nat.add_one_sub_one] at hlo hhi
   split
   · next hneg =>
     obtain ⟨h1, h2, h3⟩ := natDigits_spec (-v.toInt).toNat
@@ -1821,6 +1821,7 @@ structure Opd (x : Bytes) : Prop where
   trim : trimSpace x = x
   noComma : (0x2C : UInt8) ∉ x
   noHash : (0x23 : UInt8) ∉ x
+  noNL : (0x0A : UInt8) ∉ x
 
 theorem trimRight_length_le (l : Bytes) : (trimRight l).length ≤ l.length := (trimRight_prefix l).length_le
 theorem trimLeft_length_le (l : Bytes) : (trimLeft l).length ≤ l.length := (trimLeft_suffix l).length_le
@@ -1920,7 +1921,7 @@ theorem classify_pretty {mn : Bytes} {m : Gen.InstructionType} (hm : MnOk mn m) 
 def isOpdByte (c : UInt8) : Bool := isAlnum c || c == 0x2D || c == 0x28 || c == 0x29
 
 theorem opdByte_facts : ∀ c : UInt8, isOpdByte c = true →
-    c < 0x80 ∧ isSp1 c = false ∧ c ≠ 0x2C ∧ c ≠ 0x23 := by u8_decide
+    c < 0x80 ∧ isSp1 c = false ∧ c ≠ 0x2C ∧ c ≠ 0x23 ∧ c ≠ 0x0A := by u8_decide
 
 theorem trimSpace_of_stops {x : Bytes} (hne : x ≠ []) (h : ∀ c ∈ x, c < 0x80 ∧ isSp1 c = false) : trimSpace x = x := by
   unfold trimSpace
@@ -1939,7 +1940,8 @@ theorem opd_of_bytes {x : Bytes} (hne : x ≠ []) (h : ∀ c ∈ x, isOpdByte c 
   ne := hne
   trim := trimSpace_of_stops hne (fun c hc => ⟨(opdByte_facts c (h c hc)).1, (opdByte_facts c (h c hc)).2.1⟩)
   noComma := fun hm => (opdByte_facts _ (h _ hm)).2.2.1 rfl
-  noHash := fun hm => (opdByte_facts _ (h _ hm)).2.2.2 rfl
+  noHash := fun hm => (opdByte_facts _ (h _ hm)).2.2.2.1 rfl
+  noNL := fun hm => (opdByte_facts _ (h _ hm)).2.2.2.2 rfl
 
 theorem regName_opdBytes {r : Nat} (h : r < 32) : ∀ c ∈ regName r, isOpdByte c = true := fun c hc => by
   simp [isOpdByte, regName_alnum h c hc]
@@ -1964,8 +1966,8 @@ theorem opd_mem (v : Word) {r : Nat} (h : r < 32) : Opd (showImm v ++ 0x28 :: re
 theorem labelOk_spec {s : String} (h : labelOk s = true) : latin1 (unlatin1 s) = s ∧ Opd (unlatin1 s) := by
   simp only [labelOk, Bool.and_eq_true, beq_iff_eq, Bool.not_eq_true', List.isEmpty_eq_false_iff,
     List.contains_eq_mem, decide_eq_false_iff_not] at h
-  obtain ⟨⟨⟨⟨⟨h1, h2⟩, h3⟩, h4⟩, h5⟩, _⟩ := h
-  exact ⟨h1, ⟨h2, h3, h4, h5⟩⟩
+  obtain ⟨⟨⟨⟨⟨h1, h2⟩, h3⟩, h4⟩, h5⟩, h6⟩ := h
+  exact ⟨h1, ⟨h2, h3, h4, h5, h6⟩⟩
 
 theorem parseOffsetReg_pretty (v : Word) {r : Nat} (h : r < 32) :
     parseOffsetReg (showImm v ++ 0x28 :: regName r ++ [0x29]) = .ok (v, r) := by
@@ -2044,5 +2046,625 @@ theorem rrr_pretty (mk : Reg → Reg → Reg → Gen.Instr) :
   simp [rrr, validateArgs, arg, idx, bind, Except.bind, pure, Except.pure, (opd_reg ha).trim, (opd_reg hb).trim,
     (opd_reg hc).trim, parseRegister_regName ha, parseRegister_regName hb, parseRegister_regName hc]
 end Shapes
+
+/-! ### the round trip, one instruction (45 cases, generated from the operand-shape table) -/
+
+theorem commaSep_noNL : ∀ {ops : List Bytes}, (∀ x ∈ ops, Opd x) → (0x0A : UInt8) ∉ commaSep ops
+  | [], _ => by simp [commaSep]
+  | [a], h => by simpa [commaSep] using (h a (by simp)).noNL
+  | a :: b :: r, h => by
+    rw [commaSep]
+    simp only [List.mem_append, List.mem_cons, not_or]
+    exact ⟨(h a (by simp)).noNL, by decide, by decide, commaSep_noNL (fun x hx => h x (by simp [hx]))⟩
+
+theorem noNL_line {mn : Bytes} {ops : List Bytes} (hmn : (0x0A : UInt8) ∉ mn) (hops : ∀ x ∈ ops, Opd x) :
+    (0x0A : UInt8) ∉ mn ++ 0x20 :: commaSep ops := by
+  simp only [List.mem_append, List.mem_cons, not_or]
+  exact ⟨hmn, by decide, commaSep_noNL hops⟩
+
+set_option linter.unusedSimpArgs false in
+/-- every well-formed instruction is read back from its canonical text, which is one line -/
+theorem prettyInstr_spec (i : Gen.Instr) (h : WfInstr i = true) :
+    classify (prettyInstr i) = .ok (.instr i) ∧ (0x0A : UInt8) ∉ prettyInstr i := by
+  cases i with
+  | add_ o =>
+    simp only [WfInstr, Bool.and_eq_true, regOk, decide_eq_true_eq, beq_iff_eq] at h
+    obtain ⟨⟨⟨h1, h2⟩, h3⟩, hf⟩ := h
+    have hops := (List.forall_mem_cons.mpr ⟨opd_reg h1, (List.forall_mem_cons.mpr ⟨opd_reg h2, (List.forall_mem_cons.mpr ⟨opd_reg h3, (fun _ h => absurd h List.not_mem_nil)⟩)⟩)⟩)
+    refine ⟨?_, by rw [prettyInstr]; exact noNL_line (by decide) hops⟩
+    rw [prettyInstr, classify_pretty (m := .Add) ⟨by decide, by decide, by rfl⟩ (by simp) hops]
+    simp only [decodeOps, rrr_pretty h1 h2 h3, Except.map]
+    cases o; cases hf; rfl
+  | addi_ o =>
+    simp only [WfInstr, Bool.and_eq_true, regOk, decide_eq_true_eq, beq_iff_eq] at h
+    obtain ⟨⟨h1, h2⟩, hf⟩ := h
+    have hops := (List.forall_mem_cons.mpr ⟨opd_reg h1, (List.forall_mem_cons.mpr ⟨opd_reg h2, (List.forall_mem_cons.mpr ⟨opd_imm o.imm, (fun _ h => absurd h List.not_mem_nil)⟩)⟩)⟩)
+    refine ⟨?_, by rw [prettyInstr]; exact noNL_line (by decide) hops⟩
+    rw [prettyInstr, classify_pretty (m := .Addi) ⟨by decide, by decide, by rfl⟩ (by simp) hops]
+    simp only [decodeOps, rri_pretty h1 h2 o.imm, Except.map]
+    cases o; cases hf; rfl
+  | and_ o =>
+    simp only [WfInstr, Bool.and_eq_true, regOk, decide_eq_true_eq, beq_iff_eq] at h
+    obtain ⟨⟨⟨h1, h2⟩, h3⟩, hf⟩ := h
+    have hops := (List.forall_mem_cons.mpr ⟨opd_reg h1, (List.forall_mem_cons.mpr ⟨opd_reg h2, (List.forall_mem_cons.mpr ⟨opd_reg h3, (fun _ h => absurd h List.not_mem_nil)⟩)⟩)⟩)
+    refine ⟨?_, by rw [prettyInstr]; exact noNL_line (by decide) hops⟩
+    rw [prettyInstr, classify_pretty (m := .And) ⟨by decide, by decide, by rfl⟩ (by simp) hops]
+    simp only [decodeOps, rrr_pretty h1 h2 h3, Except.map]
+    cases o; cases hf; rfl
+  | andi_ o =>
+    simp only [WfInstr, Bool.and_eq_true, regOk, decide_eq_true_eq, beq_iff_eq] at h
+    obtain ⟨⟨h1, h2⟩, hf⟩ := h
+    have hops := (List.forall_mem_cons.mpr ⟨opd_reg h1, (List.forall_mem_cons.mpr ⟨opd_reg h2, (List.forall_mem_cons.mpr ⟨opd_imm o.imm, (fun _ h => absurd h List.not_mem_nil)⟩)⟩)⟩)
+    refine ⟨?_, by rw [prettyInstr]; exact noNL_line (by decide) hops⟩
+    rw [prettyInstr, classify_pretty (m := .Andi) ⟨by decide, by decide, by rfl⟩ (by simp) hops]
+    simp only [decodeOps, rri_pretty h1 h2 o.imm, Except.map]
+    cases o; cases hf; rfl
+  | auipc_ o =>
+    simp only [WfInstr, Bool.and_eq_true, regOk, decide_eq_true_eq, beq_iff_eq] at h
+    have h1 := h
+    have hops := (List.forall_mem_cons.mpr ⟨opd_reg h1, (List.forall_mem_cons.mpr ⟨opd_imm o.imm, (fun _ h => absurd h List.not_mem_nil)⟩)⟩)
+    refine ⟨?_, by rw [prettyInstr]; exact noNL_line (by decide) hops⟩
+    rw [prettyInstr, classify_pretty (m := .Auipc) ⟨by decide, by decide, by rfl⟩ (by simp) hops]
+    simp only [decodeOps, ri_pretty h1 o.imm, Except.map]
+    all_goals (cases o; rfl)
+  | beq_ o =>
+    simp only [WfInstr, Bool.and_eq_true, regOk, decide_eq_true_eq, beq_iff_eq] at h
+    obtain ⟨⟨⟨h1, h2⟩, h3⟩, hf⟩ := h
+    have hops := (List.forall_mem_cons.mpr ⟨opd_reg h1, (List.forall_mem_cons.mpr ⟨opd_reg h2, (List.forall_mem_cons.mpr ⟨(labelOk_spec h3).2, (fun _ h => absurd h List.not_mem_nil)⟩)⟩)⟩)
+    refine ⟨?_, by rw [prettyInstr]; exact noNL_line (by decide) hops⟩
+    rw [prettyInstr, classify_pretty (m := .Beq) ⟨by decide, by decide, by rfl⟩ (by simp) hops]
+    simp only [decodeOps, rrl_pretty h1 h2 (labelOk_spec h3).2, Except.map]
+    rw [(labelOk_spec h3).1]
+    cases o; cases hf; rfl
+  | beqz_ o =>
+    simp only [WfInstr, Bool.and_eq_true, regOk, decide_eq_true_eq, beq_iff_eq] at h
+    obtain ⟨⟨h1, h2⟩, hf⟩ := h
+    have hops := (List.forall_mem_cons.mpr ⟨opd_reg h1, (List.forall_mem_cons.mpr ⟨(labelOk_spec h2).2, (fun _ h => absurd h List.not_mem_nil)⟩)⟩)
+    refine ⟨?_, by rw [prettyInstr]; exact noNL_line (by decide) hops⟩
+    rw [prettyInstr, classify_pretty (m := .Beqz) ⟨by decide, by decide, by rfl⟩ (by simp) hops]
+    simp only [decodeOps, rl_pretty h1 (labelOk_spec h2).2, Except.map]
+    rw [(labelOk_spec h2).1]
+    cases o; cases hf; rfl
+  | bge_ o =>
+    simp only [WfInstr, Bool.and_eq_true, regOk, decide_eq_true_eq, beq_iff_eq] at h
+    obtain ⟨⟨⟨h1, h2⟩, h3⟩, hf⟩ := h
+    have hops := (List.forall_mem_cons.mpr ⟨opd_reg h1, (List.forall_mem_cons.mpr ⟨opd_reg h2, (List.forall_mem_cons.mpr ⟨(labelOk_spec h3).2, (fun _ h => absurd h List.not_mem_nil)⟩)⟩)⟩)
+    refine ⟨?_, by rw [prettyInstr]; exact noNL_line (by decide) hops⟩
+    rw [prettyInstr, classify_pretty (m := .Bge) ⟨by decide, by decide, by rfl⟩ (by simp) hops]
+    simp only [decodeOps, rrl_pretty h1 h2 (labelOk_spec h3).2, Except.map]
+    rw [(labelOk_spec h3).1]
+    cases o; cases hf; rfl
+  | bgeu_ o =>
+    simp only [WfInstr, Bool.and_eq_true, regOk, decide_eq_true_eq, beq_iff_eq] at h
+    obtain ⟨⟨⟨h1, h2⟩, h3⟩, hf⟩ := h
+    have hops := (List.forall_mem_cons.mpr ⟨opd_reg h1, (List.forall_mem_cons.mpr ⟨opd_reg h2, (List.forall_mem_cons.mpr ⟨(labelOk_spec h3).2, (fun _ h => absurd h List.not_mem_nil)⟩)⟩)⟩)
+    refine ⟨?_, by rw [prettyInstr]; exact noNL_line (by decide) hops⟩
+    rw [prettyInstr, classify_pretty (m := .Bgeu) ⟨by decide, by decide, by rfl⟩ (by simp) hops]
+    simp only [decodeOps, rrl_pretty h1 h2 (labelOk_spec h3).2, Except.map]
+    rw [(labelOk_spec h3).1]
+    cases o; cases hf; rfl
+  | ble_ o =>
+    simp only [WfInstr, Bool.and_eq_true, regOk, decide_eq_true_eq, beq_iff_eq] at h
+    obtain ⟨⟨⟨h1, h2⟩, h3⟩, hf⟩ := h
+    have hops := (List.forall_mem_cons.mpr ⟨opd_reg h1, (List.forall_mem_cons.mpr ⟨opd_reg h2, (List.forall_mem_cons.mpr ⟨(labelOk_spec h3).2, (fun _ h => absurd h List.not_mem_nil)⟩)⟩)⟩)
+    refine ⟨?_, by rw [prettyInstr]; exact noNL_line (by decide) hops⟩
+    rw [prettyInstr, classify_pretty (m := .Ble) ⟨by decide, by decide, by rfl⟩ (by simp) hops]
+    simp only [decodeOps, rrl_pretty h1 h2 (labelOk_spec h3).2, Except.map]
+    rw [(labelOk_spec h3).1]
+    cases o; cases hf; rfl
+  | blt_ o =>
+    simp only [WfInstr, Bool.and_eq_true, regOk, decide_eq_true_eq, beq_iff_eq] at h
+    obtain ⟨⟨⟨h1, h2⟩, h3⟩, hf⟩ := h
+    have hops := (List.forall_mem_cons.mpr ⟨opd_reg h1, (List.forall_mem_cons.mpr ⟨opd_reg h2, (List.forall_mem_cons.mpr ⟨(labelOk_spec h3).2, (fun _ h => absurd h List.not_mem_nil)⟩)⟩)⟩)
+    refine ⟨?_, by rw [prettyInstr]; exact noNL_line (by decide) hops⟩
+    rw [prettyInstr, classify_pretty (m := .Blt) ⟨by decide, by decide, by rfl⟩ (by simp) hops]
+    simp only [decodeOps, rrl_pretty h1 h2 (labelOk_spec h3).2, Except.map]
+    rw [(labelOk_spec h3).1]
+    cases o; cases hf; rfl
+  | bltu_ o =>
+    simp only [WfInstr, Bool.and_eq_true, regOk, decide_eq_true_eq, beq_iff_eq] at h
+    obtain ⟨⟨⟨h1, h2⟩, h3⟩, hf⟩ := h
+    have hops := (List.forall_mem_cons.mpr ⟨opd_reg h1, (List.forall_mem_cons.mpr ⟨opd_reg h2, (List.forall_mem_cons.mpr ⟨(labelOk_spec h3).2, (fun _ h => absurd h List.not_mem_nil)⟩)⟩)⟩)
+    refine ⟨?_, by rw [prettyInstr]; exact noNL_line (by decide) hops⟩
+    rw [prettyInstr, classify_pretty (m := .Bltu) ⟨by decide, by decide, by rfl⟩ (by simp) hops]
+    simp only [decodeOps, rrl_pretty h1 h2 (labelOk_spec h3).2, Except.map]
+    rw [(labelOk_spec h3).1]
+    cases o; cases hf; rfl
+  | bne_ o =>
+    simp only [WfInstr, Bool.and_eq_true, regOk, decide_eq_true_eq, beq_iff_eq] at h
+    obtain ⟨⟨⟨h1, h2⟩, h3⟩, hf⟩ := h
+    have hops := (List.forall_mem_cons.mpr ⟨opd_reg h1, (List.forall_mem_cons.mpr ⟨opd_reg h2, (List.forall_mem_cons.mpr ⟨(labelOk_spec h3).2, (fun _ h => absurd h List.not_mem_nil)⟩)⟩)⟩)
+    refine ⟨?_, by rw [prettyInstr]; exact noNL_line (by decide) hops⟩
+    rw [prettyInstr, classify_pretty (m := .Bne) ⟨by decide, by decide, by rfl⟩ (by simp) hops]
+    simp only [decodeOps, rrl_pretty h1 h2 (labelOk_spec h3).2, Except.map]
+    rw [(labelOk_spec h3).1]
+    cases o; cases hf; rfl
+  | bnez_ o =>
+    simp only [WfInstr, Bool.and_eq_true, regOk, decide_eq_true_eq, beq_iff_eq] at h
+    obtain ⟨⟨h1, h2⟩, hf⟩ := h
+    have hops := (List.forall_mem_cons.mpr ⟨opd_reg h1, (List.forall_mem_cons.mpr ⟨(labelOk_spec h2).2, (fun _ h => absurd h List.not_mem_nil)⟩)⟩)
+    refine ⟨?_, by rw [prettyInstr]; exact noNL_line (by decide) hops⟩
+    rw [prettyInstr, classify_pretty (m := .Bnez) ⟨by decide, by decide, by rfl⟩ (by simp) hops]
+    simp only [decodeOps, rl_pretty h1 (labelOk_spec h2).2, Except.map]
+    rw [(labelOk_spec h2).1]
+    cases o; cases hf; rfl
+  | div_ o =>
+    simp only [WfInstr, Bool.and_eq_true, regOk, decide_eq_true_eq, beq_iff_eq] at h
+    obtain ⟨⟨⟨h1, h2⟩, h3⟩, hf⟩ := h
+    have hops := (List.forall_mem_cons.mpr ⟨opd_reg h1, (List.forall_mem_cons.mpr ⟨opd_reg h2, (List.forall_mem_cons.mpr ⟨opd_reg h3, (fun _ h => absurd h List.not_mem_nil)⟩)⟩)⟩)
+    refine ⟨?_, by rw [prettyInstr]; exact noNL_line (by decide) hops⟩
+    rw [prettyInstr, classify_pretty (m := .Div) ⟨by decide, by decide, by rfl⟩ (by simp) hops]
+    simp only [decodeOps, rrr_pretty h1 h2 h3, Except.map]
+    cases o; cases hf; rfl
+  | j_ o =>
+    simp only [WfInstr, Bool.and_eq_true, regOk, decide_eq_true_eq, beq_iff_eq] at h
+    have h1 := h
+    have hops := (List.forall_mem_cons.mpr ⟨(labelOk_spec h1).2, (fun _ h => absurd h List.not_mem_nil)⟩)
+    refine ⟨?_, by rw [prettyInstr]; exact noNL_line (by decide) hops⟩
+    rw [prettyInstr, classify_pretty (m := .J) ⟨by decide, by decide, by rfl⟩ (by simp) hops]
+    simp only [decodeOps, l1_pretty  (labelOk_spec h1).2, Except.map]
+    rw [(labelOk_spec h1).1]
+    all_goals (cases o; rfl)
+  | jal_ o =>
+    simp only [WfInstr, Bool.and_eq_true, regOk, decide_eq_true_eq, beq_iff_eq] at h
+    obtain ⟨⟨h1, h2⟩, hf⟩ := h
+    have hops := (List.forall_mem_cons.mpr ⟨opd_reg h1, (List.forall_mem_cons.mpr ⟨(labelOk_spec h2).2, (fun _ h => absurd h List.not_mem_nil)⟩)⟩)
+    refine ⟨?_, by rw [prettyInstr]; exact noNL_line (by decide) hops⟩
+    rw [prettyInstr, classify_pretty (m := .Jal) ⟨by decide, by decide, by rfl⟩ (by simp) hops]
+    simp only [decodeOps, rl_pretty h1 (labelOk_spec h2).2, Except.map]
+    rw [(labelOk_spec h2).1]
+    cases o; cases hf; rfl
+  | jalr_ o =>
+    simp only [WfInstr, Bool.and_eq_true, regOk, decide_eq_true_eq, beq_iff_eq] at h
+    obtain ⟨⟨h1, h2⟩, hf⟩ := h
+    have hops := (List.forall_mem_cons.mpr ⟨opd_reg h1, (List.forall_mem_cons.mpr ⟨opd_reg h2, (List.forall_mem_cons.mpr ⟨opd_imm o.imm, (fun _ h => absurd h List.not_mem_nil)⟩)⟩)⟩)
+    refine ⟨?_, by rw [prettyInstr]; exact noNL_line (by decide) hops⟩
+    rw [prettyInstr, classify_pretty (m := .Jalr) ⟨by decide, by decide, by rfl⟩ (by simp) hops]
+    simp only [decodeOps, rri_pretty h1 h2 o.imm, Except.map]
+    cases o; cases hf; rfl
+  | lui_ o =>
+    simp only [WfInstr, Bool.and_eq_true, regOk, decide_eq_true_eq, beq_iff_eq] at h
+    have h1 := h
+    have hops := (List.forall_mem_cons.mpr ⟨opd_reg h1, (List.forall_mem_cons.mpr ⟨opd_imm o.imm, (fun _ h => absurd h List.not_mem_nil)⟩)⟩)
+    refine ⟨?_, by rw [prettyInstr]; exact noNL_line (by decide) hops⟩
+    rw [prettyInstr, classify_pretty (m := .Lui) ⟨by decide, by decide, by rfl⟩ (by simp) hops]
+    simp only [decodeOps, ri_pretty h1 o.imm, Except.map]
+    all_goals (cases o; rfl)
+  | lb_ o =>
+    simp only [WfInstr, Bool.and_eq_true, regOk, decide_eq_true_eq, beq_iff_eq] at h
+    obtain ⟨⟨h1, h2⟩, hf⟩ := h
+    have hops := (List.forall_mem_cons.mpr ⟨opd_reg h1, (List.forall_mem_cons.mpr ⟨opd_mem o.offset h2, (fun _ h => absurd h List.not_mem_nil)⟩)⟩)
+    refine ⟨?_, by rw [prettyInstr]; exact noNL_line (by decide) hops⟩
+    rw [prettyInstr, classify_pretty (m := .Lb) ⟨by decide, by decide, by rfl⟩ (by simp) hops]
+    simp only [decodeOps, rm_pretty h1 h2 o.offset, Except.map]
+    cases o; cases hf; rfl
+  | lh_ o =>
+    simp only [WfInstr, Bool.and_eq_true, regOk, decide_eq_true_eq, beq_iff_eq] at h
+    obtain ⟨⟨h1, h2⟩, hf⟩ := h
+    have hops := (List.forall_mem_cons.mpr ⟨opd_reg h1, (List.forall_mem_cons.mpr ⟨opd_mem o.offset h2, (fun _ h => absurd h List.not_mem_nil)⟩)⟩)
+    refine ⟨?_, by rw [prettyInstr]; exact noNL_line (by decide) hops⟩
+    rw [prettyInstr, classify_pretty (m := .Lh) ⟨by decide, by decide, by rfl⟩ (by simp) hops]
+    simp only [decodeOps, rm_pretty h1 h2 o.offset, Except.map]
+    cases o; cases hf; rfl
+  | li_ o =>
+    simp only [WfInstr, Bool.and_eq_true, regOk, decide_eq_true_eq, beq_iff_eq] at h
+    have h1 := h
+    have hops := (List.forall_mem_cons.mpr ⟨opd_reg h1, (List.forall_mem_cons.mpr ⟨opd_imm o.imm, (fun _ h => absurd h List.not_mem_nil)⟩)⟩)
+    refine ⟨?_, by rw [prettyInstr]; exact noNL_line (by decide) hops⟩
+    rw [prettyInstr, classify_pretty (m := .Li) ⟨by decide, by decide, by rfl⟩ (by simp) hops]
+    simp only [decodeOps, ri_pretty h1 o.imm, Except.map]
+    all_goals (cases o; rfl)
+  | lw_ o =>
+    simp only [WfInstr, Bool.and_eq_true, regOk, decide_eq_true_eq, beq_iff_eq] at h
+    obtain ⟨⟨h1, h2⟩, hf⟩ := h
+    have hops := (List.forall_mem_cons.mpr ⟨opd_reg h1, (List.forall_mem_cons.mpr ⟨opd_mem o.offset h2, (fun _ h => absurd h List.not_mem_nil)⟩)⟩)
+    refine ⟨?_, by rw [prettyInstr]; exact noNL_line (by decide) hops⟩
+    rw [prettyInstr, classify_pretty (m := .Lw) ⟨by decide, by decide, by rfl⟩ (by simp) hops]
+    simp only [decodeOps, rm_pretty h1 h2 o.offset, Except.map]
+    cases o; cases hf; rfl
+  | nop_ o => exact ⟨by cases o; rfl, by rw [prettyInstr]; decide⟩
+  | mul_ o =>
+    simp only [WfInstr, Bool.and_eq_true, regOk, decide_eq_true_eq, beq_iff_eq] at h
+    obtain ⟨⟨⟨h1, h2⟩, h3⟩, hf⟩ := h
+    have hops := (List.forall_mem_cons.mpr ⟨opd_reg h1, (List.forall_mem_cons.mpr ⟨opd_reg h2, (List.forall_mem_cons.mpr ⟨opd_reg h3, (fun _ h => absurd h List.not_mem_nil)⟩)⟩)⟩)
+    refine ⟨?_, by rw [prettyInstr]; exact noNL_line (by decide) hops⟩
+    rw [prettyInstr, classify_pretty (m := .Mul) ⟨by decide, by decide, by rfl⟩ (by simp) hops]
+    simp only [decodeOps, rrr_pretty h1 h2 h3, Except.map]
+    cases o; cases hf; rfl
+  | mv_ o =>
+    simp only [WfInstr, Bool.and_eq_true, regOk, decide_eq_true_eq, beq_iff_eq] at h
+    obtain ⟨⟨h1, h2⟩, hf⟩ := h
+    have hops := (List.forall_mem_cons.mpr ⟨opd_reg h1, (List.forall_mem_cons.mpr ⟨opd_reg h2, (fun _ h => absurd h List.not_mem_nil)⟩)⟩)
+    refine ⟨?_, by rw [prettyInstr]; exact noNL_line (by decide) hops⟩
+    rw [prettyInstr, classify_pretty (m := .Mv) ⟨by decide, by decide, by rfl⟩ (by simp) hops]
+    simp only [decodeOps, rr_pretty h1 h2, Except.map]
+    cases o; cases hf; rfl
+  | or_ o =>
+    simp only [WfInstr, Bool.and_eq_true, regOk, decide_eq_true_eq, beq_iff_eq] at h
+    obtain ⟨⟨⟨h1, h2⟩, h3⟩, hf⟩ := h
+    have hops := (List.forall_mem_cons.mpr ⟨opd_reg h1, (List.forall_mem_cons.mpr ⟨opd_reg h2, (List.forall_mem_cons.mpr ⟨opd_reg h3, (fun _ h => absurd h List.not_mem_nil)⟩)⟩)⟩)
+    refine ⟨?_, by rw [prettyInstr]; exact noNL_line (by decide) hops⟩
+    rw [prettyInstr, classify_pretty (m := .Or) ⟨by decide, by decide, by rfl⟩ (by simp) hops]
+    simp only [decodeOps, rrr_pretty h1 h2 h3, Except.map]
+    cases o; cases hf; rfl
+  | ori_ o =>
+    simp only [WfInstr, Bool.and_eq_true, regOk, decide_eq_true_eq, beq_iff_eq] at h
+    obtain ⟨⟨h1, h2⟩, hf⟩ := h
+    have hops := (List.forall_mem_cons.mpr ⟨opd_reg h1, (List.forall_mem_cons.mpr ⟨opd_reg h2, (List.forall_mem_cons.mpr ⟨opd_imm o.imm, (fun _ h => absurd h List.not_mem_nil)⟩)⟩)⟩)
+    refine ⟨?_, by rw [prettyInstr]; exact noNL_line (by decide) hops⟩
+    rw [prettyInstr, classify_pretty (m := .Ori) ⟨by decide, by decide, by rfl⟩ (by simp) hops]
+    simp only [decodeOps, rri_pretty h1 h2 o.imm, Except.map]
+    cases o; cases hf; rfl
+  | rem_ o =>
+    simp only [WfInstr, Bool.and_eq_true, regOk, decide_eq_true_eq, beq_iff_eq] at h
+    obtain ⟨⟨⟨h1, h2⟩, h3⟩, hf⟩ := h
+    have hops := (List.forall_mem_cons.mpr ⟨opd_reg h1, (List.forall_mem_cons.mpr ⟨opd_reg h2, (List.forall_mem_cons.mpr ⟨opd_reg h3, (fun _ h => absurd h List.not_mem_nil)⟩)⟩)⟩)
+    refine ⟨?_, by rw [prettyInstr]; exact noNL_line (by decide) hops⟩
+    rw [prettyInstr, classify_pretty (m := .Rem) ⟨by decide, by decide, by rfl⟩ (by simp) hops]
+    simp only [decodeOps, rrr_pretty h1 h2 h3, Except.map]
+    cases o; cases hf; rfl
+  | ret_ o => exact ⟨by cases o; rfl, by rw [prettyInstr]; decide⟩
+  | sb_ o =>
+    simp only [WfInstr, Bool.and_eq_true, regOk, decide_eq_true_eq, beq_iff_eq] at h
+    obtain ⟨⟨h1, h2⟩, hf⟩ := h
+    have hops := (List.forall_mem_cons.mpr ⟨opd_reg h1, (List.forall_mem_cons.mpr ⟨opd_mem o.offset h2, (fun _ h => absurd h List.not_mem_nil)⟩)⟩)
+    refine ⟨?_, by rw [prettyInstr]; exact noNL_line (by decide) hops⟩
+    rw [prettyInstr, classify_pretty (m := .Sb) ⟨by decide, by decide, by rfl⟩ (by simp) hops]
+    simp only [decodeOps, rm_pretty h1 h2 o.offset, Except.map]
+    cases o; cases hf; rfl
+  | sh_ o =>
+    simp only [WfInstr, Bool.and_eq_true, regOk, decide_eq_true_eq, beq_iff_eq] at h
+    obtain ⟨⟨h1, h2⟩, hf⟩ := h
+    have hops := (List.forall_mem_cons.mpr ⟨opd_reg h1, (List.forall_mem_cons.mpr ⟨opd_imm o.offset, (List.forall_mem_cons.mpr ⟨opd_reg h2, (fun _ h => absurd h List.not_mem_nil)⟩)⟩)⟩)
+    refine ⟨?_, by rw [prettyInstr]; exact noNL_line (by decide) hops⟩
+    rw [prettyInstr, classify_pretty (m := .Sh) ⟨by decide, by decide, by rfl⟩ (by simp) hops]
+    simp only [decodeOps, rir_pretty h1 h2 o.offset, Except.map]
+    cases o; cases hf; rfl
+  | sll_ o =>
+    simp only [WfInstr, Bool.and_eq_true, regOk, decide_eq_true_eq, beq_iff_eq] at h
+    obtain ⟨⟨⟨h1, h2⟩, h3⟩, hf⟩ := h
+    have hops := (List.forall_mem_cons.mpr ⟨opd_reg h1, (List.forall_mem_cons.mpr ⟨opd_reg h2, (List.forall_mem_cons.mpr ⟨opd_reg h3, (fun _ h => absurd h List.not_mem_nil)⟩)⟩)⟩)
+    refine ⟨?_, by rw [prettyInstr]; exact noNL_line (by decide) hops⟩
+    rw [prettyInstr, classify_pretty (m := .Sll) ⟨by decide, by decide, by rfl⟩ (by simp) hops]
+    simp only [decodeOps, rrr_pretty h1 h2 h3, Except.map]
+    cases o; cases hf; rfl
+  | slli_ o =>
+    simp only [WfInstr, Bool.and_eq_true, regOk, decide_eq_true_eq, beq_iff_eq] at h
+    obtain ⟨⟨h1, h2⟩, hf⟩ := h
+    have hops := (List.forall_mem_cons.mpr ⟨opd_reg h1, (List.forall_mem_cons.mpr ⟨opd_reg h2, (List.forall_mem_cons.mpr ⟨opd_imm o.imm, (fun _ h => absurd h List.not_mem_nil)⟩)⟩)⟩)
+    refine ⟨?_, by rw [prettyInstr]; exact noNL_line (by decide) hops⟩
+    rw [prettyInstr, classify_pretty (m := .Slli) ⟨by decide, by decide, by rfl⟩ (by simp) hops]
+    simp only [decodeOps, rri_pretty h1 h2 o.imm, Except.map]
+    cases o; cases hf; rfl
+  | slt_ o =>
+    simp only [WfInstr, Bool.and_eq_true, regOk, decide_eq_true_eq, beq_iff_eq] at h
+    obtain ⟨⟨⟨h1, h2⟩, h3⟩, hf⟩ := h
+    have hops := (List.forall_mem_cons.mpr ⟨opd_reg h1, (List.forall_mem_cons.mpr ⟨opd_reg h2, (List.forall_mem_cons.mpr ⟨opd_reg h3, (fun _ h => absurd h List.not_mem_nil)⟩)⟩)⟩)
+    refine ⟨?_, by rw [prettyInstr]; exact noNL_line (by decide) hops⟩
+    rw [prettyInstr, classify_pretty (m := .Slt) ⟨by decide, by decide, by rfl⟩ (by simp) hops]
+    simp only [decodeOps, rrr_pretty h1 h2 h3, Except.map]
+    cases o; cases hf; rfl
+  | sltu_ o =>
+    simp only [WfInstr, Bool.and_eq_true, regOk, decide_eq_true_eq, beq_iff_eq] at h
+    obtain ⟨⟨⟨h1, h2⟩, h3⟩, hf⟩ := h
+    have hops := (List.forall_mem_cons.mpr ⟨opd_reg h1, (List.forall_mem_cons.mpr ⟨opd_reg h2, (List.forall_mem_cons.mpr ⟨opd_reg h3, (fun _ h => absurd h List.not_mem_nil)⟩)⟩)⟩)
+    refine ⟨?_, by rw [prettyInstr]; exact noNL_line (by decide) hops⟩
+    rw [prettyInstr, classify_pretty (m := .Sltu) ⟨by decide, by decide, by rfl⟩ (by simp) hops]
+    simp only [decodeOps, rrr_pretty h1 h2 h3, Except.map]
+    cases o; cases hf; rfl
+  | slti_ o =>
+    simp only [WfInstr, Bool.and_eq_true, regOk, decide_eq_true_eq, beq_iff_eq] at h
+    obtain ⟨⟨h1, h2⟩, hf⟩ := h
+    have hops := (List.forall_mem_cons.mpr ⟨opd_reg h1, (List.forall_mem_cons.mpr ⟨opd_reg h2, (List.forall_mem_cons.mpr ⟨opd_imm o.imm, (fun _ h => absurd h List.not_mem_nil)⟩)⟩)⟩)
+    refine ⟨?_, by rw [prettyInstr]; exact noNL_line (by decide) hops⟩
+    rw [prettyInstr, classify_pretty (m := .Slti) ⟨by decide, by decide, by rfl⟩ (by simp) hops]
+    simp only [decodeOps, rri_pretty h1 h2 o.imm, Except.map]
+    cases o; cases hf; rfl
+  | sra_ o =>
+    simp only [WfInstr, Bool.and_eq_true, regOk, decide_eq_true_eq, beq_iff_eq] at h
+    obtain ⟨⟨⟨h1, h2⟩, h3⟩, hf⟩ := h
+    have hops := (List.forall_mem_cons.mpr ⟨opd_reg h1, (List.forall_mem_cons.mpr ⟨opd_reg h2, (List.forall_mem_cons.mpr ⟨opd_reg h3, (fun _ h => absurd h List.not_mem_nil)⟩)⟩)⟩)
+    refine ⟨?_, by rw [prettyInstr]; exact noNL_line (by decide) hops⟩
+    rw [prettyInstr, classify_pretty (m := .Sra) ⟨by decide, by decide, by rfl⟩ (by simp) hops]
+    simp only [decodeOps, rrr_pretty h1 h2 h3, Except.map]
+    cases o; cases hf; rfl
+  | srai_ o =>
+    simp only [WfInstr, Bool.and_eq_true, regOk, decide_eq_true_eq, beq_iff_eq] at h
+    obtain ⟨⟨h1, h2⟩, hf⟩ := h
+    have hops := (List.forall_mem_cons.mpr ⟨opd_reg h1, (List.forall_mem_cons.mpr ⟨opd_reg h2, (List.forall_mem_cons.mpr ⟨opd_imm o.imm, (fun _ h => absurd h List.not_mem_nil)⟩)⟩)⟩)
+    refine ⟨?_, by rw [prettyInstr]; exact noNL_line (by decide) hops⟩
+    rw [prettyInstr, classify_pretty (m := .Srai) ⟨by decide, by decide, by rfl⟩ (by simp) hops]
+    simp only [decodeOps, rri_pretty h1 h2 o.imm, Except.map]
+    cases o; cases hf; rfl
+  | srl_ o =>
+    simp only [WfInstr, Bool.and_eq_true, regOk, decide_eq_true_eq, beq_iff_eq] at h
+    obtain ⟨⟨⟨h1, h2⟩, h3⟩, hf⟩ := h
+    have hops := (List.forall_mem_cons.mpr ⟨opd_reg h1, (List.forall_mem_cons.mpr ⟨opd_reg h2, (List.forall_mem_cons.mpr ⟨opd_reg h3, (fun _ h => absurd h List.not_mem_nil)⟩)⟩)⟩)
+    refine ⟨?_, by rw [prettyInstr]; exact noNL_line (by decide) hops⟩
+    rw [prettyInstr, classify_pretty (m := .Srl) ⟨by decide, by decide, by rfl⟩ (by simp) hops]
+    simp only [decodeOps, rrr_pretty h1 h2 h3, Except.map]
+    cases o; cases hf; rfl
+  | srli_ o =>
+    simp only [WfInstr, Bool.and_eq_true, regOk, decide_eq_true_eq, beq_iff_eq] at h
+    obtain ⟨⟨h1, h2⟩, hf⟩ := h
+    have hops := (List.forall_mem_cons.mpr ⟨opd_reg h1, (List.forall_mem_cons.mpr ⟨opd_reg h2, (List.forall_mem_cons.mpr ⟨opd_imm o.imm, (fun _ h => absurd h List.not_mem_nil)⟩)⟩)⟩)
+    refine ⟨?_, by rw [prettyInstr]; exact noNL_line (by decide) hops⟩
+    rw [prettyInstr, classify_pretty (m := .Srli) ⟨by decide, by decide, by rfl⟩ (by simp) hops]
+    simp only [decodeOps, rri_pretty h1 h2 o.imm, Except.map]
+    cases o; cases hf; rfl
+  | sub_ o =>
+    simp only [WfInstr, Bool.and_eq_true, regOk, decide_eq_true_eq, beq_iff_eq] at h
+    obtain ⟨⟨⟨h1, h2⟩, h3⟩, hf⟩ := h
+    have hops := (List.forall_mem_cons.mpr ⟨opd_reg h1, (List.forall_mem_cons.mpr ⟨opd_reg h2, (List.forall_mem_cons.mpr ⟨opd_reg h3, (fun _ h => absurd h List.not_mem_nil)⟩)⟩)⟩)
+    refine ⟨?_, by rw [prettyInstr]; exact noNL_line (by decide) hops⟩
+    rw [prettyInstr, classify_pretty (m := .Sub) ⟨by decide, by decide, by rfl⟩ (by simp) hops]
+    simp only [decodeOps, rrr_pretty h1 h2 h3, Except.map]
+    cases o; cases hf; rfl
+  | sw_ o =>
+    simp only [WfInstr, Bool.and_eq_true, regOk, decide_eq_true_eq, beq_iff_eq] at h
+    obtain ⟨⟨h1, h2⟩, hf⟩ := h
+    have hops := (List.forall_mem_cons.mpr ⟨opd_reg h1, (List.forall_mem_cons.mpr ⟨opd_mem o.offset h2, (fun _ h => absurd h List.not_mem_nil)⟩)⟩)
+    refine ⟨?_, by rw [prettyInstr]; exact noNL_line (by decide) hops⟩
+    rw [prettyInstr, classify_pretty (m := .Sw) ⟨by decide, by decide, by rfl⟩ (by simp) hops]
+    simp only [decodeOps, rm_pretty h1 h2 o.offset, Except.map]
+    cases o; cases hf; rfl
+  | xor_ o =>
+    simp only [WfInstr, Bool.and_eq_true, regOk, decide_eq_true_eq, beq_iff_eq] at h
+    obtain ⟨⟨⟨h1, h2⟩, h3⟩, hf⟩ := h
+    have hops := (List.forall_mem_cons.mpr ⟨opd_reg h1, (List.forall_mem_cons.mpr ⟨opd_reg h2, (List.forall_mem_cons.mpr ⟨opd_reg h3, (fun _ h => absurd h List.not_mem_nil)⟩)⟩)⟩)
+    refine ⟨?_, by rw [prettyInstr]; exact noNL_line (by decide) hops⟩
+    rw [prettyInstr, classify_pretty (m := .Xor) ⟨by decide, by decide, by rfl⟩ (by simp) hops]
+    simp only [decodeOps, rrr_pretty h1 h2 h3, Except.map]
+    cases o; cases hf; rfl
+  | xori_ o =>
+    simp only [WfInstr, Bool.and_eq_true, regOk, decide_eq_true_eq, beq_iff_eq] at h
+    obtain ⟨⟨h1, h2⟩, hf⟩ := h
+    have hops := (List.forall_mem_cons.mpr ⟨opd_reg h1, (List.forall_mem_cons.mpr ⟨opd_reg h2, (List.forall_mem_cons.mpr ⟨opd_imm o.imm, (fun _ h => absurd h List.not_mem_nil)⟩)⟩)⟩)
+    refine ⟨?_, by rw [prettyInstr]; exact noNL_line (by decide) hops⟩
+    rw [prettyInstr, classify_pretty (m := .Xori) ⟨by decide, by decide, by rfl⟩ (by simp) hops]
+    simp only [decodeOps, rri_pretty h1 h2 o.imm, Except.map]
+    cases o; cases hf; rfl
+
+/-! ### the round trip, whole program -/
+
+theorem classify_of_labelName {raw n : Bytes} (h : labelName raw = some n) : classify raw = .ok (.label n) := by
+  unfold labelName at h
+  split at h
+  · next hl =>
+    cases h
+    simp only [isLabelLine, isBlankOrComment, Bool.and_eq_true, Bool.not_eq_true', Bool.or_eq_false_iff,
+      List.isEmpty_eq_false_iff, beq_eq_false_iff_ne, ne_eq, List.contains_eq_mem, decide_eq_false_iff_not,
+      beq_iff_eq] at hl
+    obtain ⟨⟨⟨h0, h1⟩, h2⟩, h3⟩ := hl
+    rw [classify_eq, if_neg h0, if_neg h1, if_pos ⟨by simp [indexOf_eq_none_iff.mpr h2], h3⟩]
+  · cases h
+
+def labelItemsOf (F : List (String × Word)) : List Item := F.map fun e => .label (unlatin1 e.1)
+
+def itemsFrom (E : List (String × Word)) : Nat → List Gen.Instr → List Item
+  | k, [] => labelItemsOf (E.filter fun e => e.2.toNat == 4 * k)
+  | k, i :: r => labelItemsOf (E.filter fun e => e.2.toNat == 4 * k) ++ .instr i :: itemsFrom E (k + 1) r
+
+theorem labelKeyOk_spec {s : String} (h : labelKeyOk s = true) :
+    latin1 (unlatin1 s) = s ∧ labelName (unlatin1 s ++ [0x3A]) = some (unlatin1 s) ∧ (0x0A : UInt8) ∉ unlatin1 s := by
+  simp only [labelKeyOk, Bool.and_eq_true, beq_iff_eq, Bool.not_eq_true', List.contains_eq_mem,
+    decide_eq_false_iff_not] at h
+  exact ⟨h.1.1, h.1.2, h.2⟩
+
+theorem AllOk.append {a b : List Bytes} {ia ib : List Item} (ha : AllOk a ia) (hb : AllOk b ib) :
+    AllOk (a ++ b) (ia ++ ib) := by
+  induction ha with
+  | nil => exact hb
+  | cons hc _ ih => exact .cons hc ih
+
+theorem allOk_labels {F : List (String × Word)} (h : ∀ e ∈ F, labelKeyOk e.1 = true) :
+    AllOk (F.map fun e => unlatin1 e.1 ++ [0x3A]) (labelItemsOf F) := by
+  induction F with
+  | nil => exact .nil
+  | cons e r ih =>
+    exact .cons (classify_of_labelName (labelKeyOk_spec (h e (by simp))).2.1) (ih fun x hx => h x (by simp [hx]))
+
+theorem allOk_prettyFrom {E : List (String × Word)} (hE : ∀ e ∈ E, labelKeyOk e.1 = true) :
+    ∀ (k : Nat) (is : List Gen.Instr), (∀ i ∈ is, WfInstr i = true) → AllOk (prettyFrom E k is) (itemsFrom E k is)
+  | k, [], _ => allOk_labels fun e he => hE e (List.mem_filter.mp he).1
+  | k, i :: r, h => by
+    rw [prettyFrom, itemsFrom]
+    exact (allOk_labels fun e he => hE e (List.mem_filter.mp he).1).append
+      (.cons (prettyInstr_spec i (h i (by simp))).1 (allOk_prettyFrom hE (k + 1) r fun j hj => h j (by simp [hj])))
+
+theorem noNL_prettyFrom {E : List (String × Word)} (hE : ∀ e ∈ E, labelKeyOk e.1 = true) :
+    ∀ (k : Nat) (is : List Gen.Instr), (∀ i ∈ is, WfInstr i = true) → ∀ l ∈ prettyFrom E k is, (0x0A : UInt8) ∉ l := by
+  have hlab : ∀ k, ∀ l ∈ labelLinesAt E k, (0x0A : UInt8) ∉ l := by
+    intro k l hl
+    simp only [labelLinesAt, List.mem_map, List.mem_filter] at hl
+    obtain ⟨e, ⟨he, _⟩, rfl⟩ := hl
+    simp only [List.mem_append, List.mem_singleton, not_or]
+    exact ⟨(labelKeyOk_spec (hE e he)).2.2, by decide⟩
+  intro k is
+  induction is generalizing k with
+  | nil => intro _ l hl; exact hlab k l hl
+  | cons i r ih =>
+    intro h l hl
+    rw [prettyFrom] at hl
+    rcases List.mem_append.mp hl with hl | hl
+    · exact hlab k l hl
+    · rcases List.mem_cons.mp hl with rfl | hl
+      · exact (prettyInstr_spec i (h i (by simp))).2
+      · exact ih (k + 1) (fun j hj => h j (by simp [hj])) l hl
+
+theorem filterMap_itemsFrom (E : List (String × Word)) : ∀ (k : Nat) (is : List Gen.Instr),
+    (itemsFrom E k is).filterMap instrOf = is := by
+  have hl : ∀ F : List (String × Word), (labelItemsOf F).filterMap instrOf = [] := by
+    intro F; induction F with
+    | nil => rfl
+    | cons e r ih => simp [labelItemsOf, List.filterMap_cons, instrOf] at ih ⊢
+  intro k is
+  induction is generalizing k with
+  | nil => exact hl _
+  | cons i r ih => rw [itemsFrom, List.filterMap_append, hl, List.filterMap_cons]; simp [instrOf, ih]
+
+/-- label items only touch the label map: each listed key is set to the current pc -/
+theorem assemble_labelItems {F : List (String × Word)} (hF : ∀ e ∈ F, labelKeyOk e.1 = true) (st : St) (key : String) :
+    (assemble (labelItemsOf F) st).pc = st.pc ∧
+    (assemble (labelItemsOf F) st).labels.find? key =
+      if key ∈ F.map (·.1) then some st.pc else st.labels.find? key := by
+  induction F generalizing st with
+  | nil => simp [labelItemsOf, assemble]
+  | cons e r ih =>
+    have he := (labelKeyOk_spec (hF e (by simp))).1
+    obtain ⟨i1, i2⟩ := ih (fun x hx => hF x (by simp [hx])) (st.apply (.label (unlatin1 e.1)))
+    simp only [labelItemsOf, List.map_cons] at i1 i2 ⊢
+    rw [assemble_cons]
+    refine ⟨by rw [i1]; rfl, ?_⟩
+    rw [i2]
+    simp only [St.apply, find?_set, he, List.mem_cons]
+    by_cases hk : key = e.1
+    · simp [hk]
+    · simp [hk]
+
+theorem lookup_of_mem {E : List (String × Word)} (hd : distinctKeys E = true) {k : String} {a : Word}
+    (h : (k, a) ∈ E) : E.lookup k = some a := by
+  induction E with
+  | nil => cases h
+  | cons e r ih =>
+    obtain ⟨k', a'⟩ := e
+    simp only [distinctKeys, Bool.and_eq_true, Bool.not_eq_true', List.contains_eq_mem, decide_eq_false_iff_not] at hd
+    rcases List.mem_cons.mp h with h | h
+    · cases h; simp
+    · have : k ≠ k' := fun e => hd.1 (by rw [← e]; exact List.mem_map_of_mem (f := (·.1)) h)
+      have hb : (k == k') = false := by simpa using this
+      rw [List.lookup_cons, hb]
+      exact ih hd.2 h
+
+theorem mem_of_lookup {E : List (String × Word)} {k : String} {a : Word} (h : E.lookup k = some a) : (k, a) ∈ E := by
+  induction E with
+  | nil => cases h
+  | cons e r ih =>
+    obtain ⟨k', a'⟩ := e
+    rw [List.lookup_cons] at h
+    by_cases hk : k = k'
+    · subst hk; simp at h; subst h; simp
+    · have hb : (k == k') = false := by simpa using hk
+      rw [hb] at h
+      exact List.mem_cons_of_mem _ (ih h)
+
+/-- the label map after assembling the items of a printed program -/
+theorem assemble_itemsFrom {E : List (String × Word)} (hE : ∀ e ∈ E, labelKeyOk e.1 = true)
+    (hd : distinctKeys E = true) (h4 : ∀ e ∈ E, e.2.toNat % 4 = 0) (key : String) :
+    ∀ (is : List Gen.Instr) (k : Nat) (st : St), st.pc = BitVec.ofNat 32 (4 * k) →
+      (assemble (itemsFrom E k is) st).labels.find? key =
+        match E.lookup key with
+        | some a => if k ≤ a.toNat / 4 ∧ a.toNat / 4 ≤ k + is.length then some a else st.labels.find? key
+        | none => st.labels.find? key := by
+  -- membership in the label group of position k, in terms of `lookup`
+  have hgrp : ∀ k, key ∈ (E.filter fun e => e.2.toNat == 4 * k).map (·.1) ↔ ∃ a, E.lookup key = some a ∧ a.toNat / 4 = k := by
+    intro k
+    constructor
+    · intro hm
+      obtain ⟨e, he, rfl⟩ := List.mem_map.mp hm
+      obtain ⟨he1, he2⟩ := List.mem_filter.mp he
+      have := h4 e he1
+      simp only [beq_iff_eq] at he2
+      exact ⟨e.2, lookup_of_mem hd he1, by omega⟩
+    · rintro ⟨a, ha, hk⟩
+      have hm := mem_of_lookup ha
+      have : a.toNat % 4 = 0 := h4 (key, a) hm
+      exact List.mem_map.mpr ⟨(key, a), List.mem_filter.mpr ⟨hm, by simp; omega⟩, rfl⟩
+  have hF : ∀ k, ∀ e ∈ (E.filter fun e => e.2.toNat == 4 * k), labelKeyOk e.1 = true :=
+    fun k e he => hE e (List.mem_filter.mp he).1
+  intro is
+  induction is with
+  | nil =>
+    intro k st hpc
+    rw [itemsFrom, (assemble_labelItems (hF k) st key).2]
+    cases hl : E.lookup key with
+    | none =>
+      have : ¬ key ∈ (E.filter fun e => e.2.toNat == 4 * k).map (·.1) := fun hm => by
+        obtain ⟨a, ha, _⟩ := (hgrp k).mp hm; rw [hl] at ha; cases ha
+      simp [this]
+    | some a =>
+      simp only [List.length_nil, Nat.add_zero]
+      by_cases hk : a.toNat / 4 = k
+      · have hm := (hgrp k).mpr ⟨a, hl, hk⟩
+        have h4a : a.toNat % 4 = 0 := h4 (key, a) (mem_of_lookup hl)
+        have : st.pc = a := by
+          rw [hpc]; apply BitVec.eq_of_toNat_eq; simp only [BitVec.toNat_ofNat]
+          have := a.isLt; omega
+        simp [hm, this, hk]
+      · have : ¬ key ∈ (E.filter fun e => e.2.toNat == 4 * k).map (·.1) := fun hm => by
+          obtain ⟨a', ha', hk'⟩ := (hgrp k).mp hm; rw [hl] at ha'; cases ha'; exact hk hk'
+        have hr : ¬ (k ≤ a.toNat / 4 ∧ a.toNat / 4 ≤ k) := by omega
+        simp [this, hr]
+  | cons i r ih =>
+    intro k st hpc
+    rw [itemsFrom, assemble_append, assemble_cons]
+    obtain ⟨p1, p2⟩ := assemble_labelItems (hF k) st key
+    generalize hst1 : assemble (labelItemsOf (E.filter fun e => e.2.toNat == 4 * k)) st = st1 at p1 p2
+    have hpc2 : (st1.apply (.instr i)).pc = BitVec.ofNat 32 (4 * (k + 1)) := by
+      simp only [St.apply, p1, hpc]
+      apply BitVec.eq_of_toNat_eq
+      have h4' : (4 : BitVec 32).toNat = 4 := rfl
+      simp only [BitVec.toNat_add, BitVec.toNat_ofNat, h4']
+      omega
+    rw [ih (k + 1) _ hpc2]
+    have hlab : (st1.apply (.instr i)).labels = st1.labels := rfl
+    rw [hlab, p2]
+    cases hl : E.lookup key with
+    | none =>
+      have : ¬ key ∈ (E.filter fun e => e.2.toNat == 4 * k).map (·.1) := fun hm => by
+        obtain ⟨a, ha, _⟩ := (hgrp k).mp hm; rw [hl] at ha; cases ha
+      simp [this]
+    | some a =>
+      simp only [List.length_cons]
+      by_cases hk : a.toNat / 4 = k
+      · have hm := (hgrp k).mpr ⟨a, hl, hk⟩
+        have h4a : a.toNat % 4 = 0 := h4 (key, a) (mem_of_lookup hl)
+        have : st.pc = a := by
+          rw [hpc]; apply BitVec.eq_of_toNat_eq; simp only [BitVec.toNat_ofNat]
+          have := a.isLt; omega
+        have hr1 : ¬ (k + 1 ≤ a.toNat / 4 ∧ a.toNat / 4 ≤ k + 1 + r.length) := by omega
+        have hr2 : (k ≤ a.toNat / 4 ∧ a.toNat / 4 ≤ k + (r.length + 1)) := by omega
+        simp [hm, this, hr1, hr2]
+      · have : ¬ key ∈ (E.filter fun e => e.2.toNat == 4 * k).map (·.1) := fun hm => by
+          obtain ⟨a', ha', hk'⟩ := (hgrp k).mp hm; rw [hl] at ha'; cases ha'; exact hk hk'
+        by_cases hr1 : (k + 1 ≤ a.toNat / 4 ∧ a.toNat / 4 ≤ k + 1 + r.length)
+        · have hr2 : (k ≤ a.toNat / 4 ∧ a.toNat / 4 ≤ k + (r.length + 1)) := by omega
+          simp [hr1, hr2]
+        · have hr2 : ¬ (k ≤ a.toNat / 4 ∧ a.toNat / 4 ≤ k + (r.length + 1)) := by omega
+          simp [this, hr1, hr2]
+
+theorem parse_of_allOk_join {ls : List Bytes} {items : List Item} (hok : AllOk ls items)
+    (hnl : ∀ l ∈ ls, (0x0A : UInt8) ∉ l) :
+    parse (joinWith 0x0A ls) = .ok { instrs := (assemble items {}).instrs, labels := (assemble items {}).labels } := by
+  cases ls with
+  | nil => cases hok; rfl
+  | cons a r =>
+    have hl : lines (joinWith 0x0A (a :: r)) = a :: r := splitOn_join (by simp) hnl
+    rw [parse_eq, hl, mapM_of_allOk hok]
+    rfl
+
+/-- the canonical text of a printable program parses back to it: same instructions, same
+label map (as a map: Go maps are unordered) -/
+theorem parse_pretty (app : App) (h : WfApp app = true) :
+    ∃ app', parse (pretty app) = .ok app' ∧ app'.instrs = app.instrs ∧
+      ∀ key, app'.labels.find? key = app.labels.find? key := by
+  simp only [WfApp, Bool.and_eq_true, List.all_eq_true, beq_iff_eq, decide_eq_true_eq] at h
+  obtain ⟨⟨hI, hE⟩, hd⟩ := h
+  have hE1 : ∀ e ∈ app.labels.entries, labelKeyOk e.1 = true := fun e he => (hE e he).1.1
+  have hE2 : ∀ e ∈ app.labels.entries, e.2.toNat % 4 = 0 := fun e he => (hE e he).1.2
+  have hok := allOk_prettyFrom hE1 0 app.instrs hI
+  have hnl := noNL_prettyFrom hE1 0 app.instrs hI
+  refine ⟨_, parse_of_allOk_join hok hnl, ?_, ?_⟩
+  · simp [assemble_instrs, filterMap_itemsFrom]
+  · intro key
+    show (assemble (itemsFrom app.labels.entries 0 app.instrs) {}).labels.find? key = _
+    rw [assemble_itemsFrom hE1 hd hE2 key app.instrs 0 {} rfl]
+    show _ = app.labels.entries.lookup key
+    cases hl : app.labels.entries.lookup key with
+    | none => rfl
+    | some a =>
+      have := (hE _ (mem_of_lookup hl)).2
+      simp only [Nat.zero_le, true_and, Nat.zero_add]
+      rw [if_pos this]
 
 end Proofs.Parser
